@@ -692,7 +692,7 @@ class NodeDerefInvoke:
             return invoke(fn, names, args, environment, self.pos)
 
         if obj_.isMap():
-            fn = obj_.value[ValueString(self.member)]
+            fn = obj_.value.get(ValueString(self.member), NULL)
             if not fn.isFunc():
                 raise CklRuntimeError(
                     ValueString("ERROR"),
